@@ -131,7 +131,7 @@ impl<const IDLE: bool> Prog for MemProg<IDLE> {
 }
 
 pub fn reclaim_protocol<const IDLE: bool, const OUTER: usize>(preload: usize, budget: u8) {
-    sched::configure(1, budget, sched::MEM_KINDS, 2);
+    sched::configure(1, budget, sched::MEM_KINDS | (1 << sched::K_ALLOC), 2);
     let mgr = MemoryManager::new();
     let (cursor, r0) = ReadCursor::new(2);
     let tw = mgr.get_token();
@@ -296,7 +296,7 @@ pub fn wholequeue_drop<F: Fl, const OUTER: usize>(preload: usize, budget: u8, ki
     std::mem::forget(w);
 }
 
-pub const PTR_AND_LOCK_KINDS: u16 = (1 << 3) | (1 << 4) | (1 << 9) | (1 << 10) | (1 << 11);
+pub const PTR_AND_LOCK_KINDS: u16 = (1 << 3) | (1 << 4) | (1 << 9) | (1 << 10) | (1 << 11) | (1 << 13);
 
 crate::mq_harness_real!(c16_wq_drop_ptrwin, hk_c16_wq_drop_ptrwin, Runner<WqDrop<BcB>, 0>, wholequeue_drop::<BcB, 0>(19, 4, PTR_AND_LOCK_KINDS));
 crate::mq_harness_real!(c16_wq_drop_seq, hk_c16_wq_drop_seq, Runner<WqDrop<BcB>, 0>, wholequeue_drop::<BcB, 0>(19, 0, 0));
